@@ -150,12 +150,44 @@ def build_harness(which):
     return None
 
 
-def run_cases(cases, which="core"):
+def run_parallel(binp, cases, jobs):
+    """real-time suites: split the case list over several harness processes"""
+    import concurrent.futures
+    chunks = [cases[i::jobs] for i in range(jobs)]
+    outs = [None] * jobs
+
+    def work(k):
+        if not chunks[k]:
+            return []
+        rc, o = run([binp], inp="\n".join(chunks[k]) + "\n", timeout=7200)
+        ol = o.splitlines()
+        if rc != 0 or len(ol) != len(chunks[k]):
+            ol = []
+            for c in chunks[k]:
+                rc1, o1 = run([binp], inp=c + "\n", timeout=600)
+                l1 = o1.splitlines()
+                ol.append(l1[0] if rc1 == 0 and len(l1) == 1 else "harness-died")
+        return ol
+    with concurrent.futures.ThreadPoolExecutor(max_workers=jobs) as ex:
+        for k, res in enumerate(ex.map(work, range(jobs))):
+            outs[k] = res
+    merged = [None] * len(cases)
+    for k in range(jobs):
+        for j, line in enumerate(outs[k]):
+            merged[k + j * jobs] = line
+    return merged
+
+
+def run_cases(cases, which="core", jobs=1):
     """returns (impl lines, model lines, spec lines)"""
     inp = "\n".join(cases) + "\n"
     binp = FFI_BIN if which == "ffi" else HARNESS_BIN
-    rc, impl = run([binp], inp=inp, timeout=3600)
-    impl_lines = impl.splitlines()
+    if jobs > 1 and len(cases) > 1:
+        impl_lines = run_parallel(binp, cases, jobs)
+        rc = 0
+    else:
+        rc, impl = run([binp], inp=inp, timeout=3600)
+        impl_lines = impl.splitlines()
     if rc != 0 or len(impl_lines) != len(cases):
         # the harness died (abort / alloc failure): bisect to keep the other cases
         impl_lines = []
@@ -277,7 +309,8 @@ def main():
                     cases = corpus_cases(extra) + cases
             if not cases:
                 continue
-            impl, model, spec = run_cases(cases, which)
+            jobs = s.get("jobs", 1)
+            impl, model, spec = run_cases(cases, which, jobs)
             evaluations += len(cases)
             for c, i, m, sp in zip(cases, impl, model, spec):
                 for k in cfg["classify"](c, i):
@@ -287,6 +320,13 @@ def main():
                     if len(samples) < 4 and len(c) < 400:
                         samples.append({"case": c, "impl": i[:400], "model": m[:400]})
                 bad_spec = i != sp and not cfg.get("spec_na", lambda c: False)(c)
+                # independent oracle on the implementation's own output (python re-statement)
+                extra = cfg.get("extra_oracle")
+                if extra is not None and not bad_spec:
+                    why = extra(c, i)
+                    if why:
+                        bad_spec = True
+                        sp = sp + "  [oracle: " + why + "]"
                 bad_model = i != m
                 if bad_spec:
                     key = cfg["finding_key"](c, i, sp)
